@@ -222,4 +222,37 @@ theorem Memo.get_spec {β : Type} (f : Nat → Option β) (m : Memo β) (k : Nat
         exact hf
       next => exact h k' v' h'
 
+theorem filterMap_congr' {α β : Type} {f g : α → Option β} : ∀ {l : List α}, (∀ x ∈ l, f x = g x) →
+    l.filterMap f = l.filterMap g
+  | [], _ => rfl
+  | x :: xs, h => by
+    have hx := h x (by simp)
+    have ht := filterMap_congr' (l := xs) (fun y hy => h y (List.mem_cons_of_mem _ hy))
+    simp only [List.filterMap_cons, hx, ht]
+
+/-- walking the indices `k..k+l.length` and reading `l[i-k]?` is walking the list -/
+theorem filterMap_range'_getElem? {α β : Type} (l : List α) (g : Nat → α → Option β) : ∀ k : Nat,
+    (List.range' k l.length).filterMap (fun i => (l[i - k]?).bind (g i)) =
+      (l.zipIdx k).filterMap (fun p => g p.2 p.1) := by
+  induction l with
+  | nil => intro k; simp
+  | cons x xs ih =>
+    intro k
+    simp only [List.length_cons, List.range'_succ, List.filterMap_cons, List.zipIdx_cons, Nat.sub_self,
+      List.getElem?_cons_zero, Option.bind_some]
+    have : (List.range' (k + 1) xs.length).filterMap (fun i => ((x :: xs)[i - k]?).bind (g i)) =
+        (List.range' (k + 1) xs.length).filterMap (fun i => (xs[i - (k + 1)]?).bind (g i)) := by
+      apply filterMap_congr'
+      intro i hi
+      simp only [List.mem_range'_1] at hi
+      have : i - k = (i - (k + 1)) + 1 := by omega
+      rw [this, List.getElem?_cons_succ]
+    rw [this, ih (k + 1)]
+
+theorem filterMap_range_getElem? {α β : Type} (l : List α) (g : Nat → α → Option β) :
+    (List.range l.length).filterMap (fun i => (l[i]?).bind (g i)) =
+      (l.zipIdx).filterMap (fun p => g p.2 p.1) := by
+  have := filterMap_range'_getElem? l g 0
+  simpa [List.range_eq_range'] using this
+
 end SymLookup
